@@ -38,6 +38,13 @@ pub struct ItState {
 	pub pos: ItPos,
 }
 
+impl ItState {
+	/// the implementation's complete internal iterator position (hook H4b)
+	pub fn state_string(&self) -> String {
+		self.it.verif_state()
+	}
+}
+
 pub type TreeGuardBox = Box<dyn std::any::Any>;
 
 pub struct Exec {
@@ -343,7 +350,7 @@ impl Exec {
 				if got != expected {
 					let sh = |o: &Option<(Vec<u8>, Vec<u8>)>| match o {
 						None => "None".to_string(),
-						Some((k, v)) => format!("({}, {}B#{:x})", hex(k), v.len(), fnv(v, 1)),
+						Some((k, v)) => format!("({}, {}B#{:x})", short_hex(k), v.len(), fnv(v, 1)),
 					};
 					return Err(Fail::new(
 						"mismatch",
